@@ -600,6 +600,172 @@ class Normalizer(ast.NodeTransformer):
         return node
 
 
+def _or_defaults(tree):
+    """`x or d` in a value position, x a plain name: the conditional `x if x else d` it abbreviates (the pinned tree spells its
+    defaults that way); boolean operators in test positions are left alone"""
+    in_test = set()
+
+    def mark(e):
+        in_test.add(id(e))
+        if isinstance(e, ast.BoolOp):
+            for v in e.values:
+                mark(v)
+        elif isinstance(e, ast.UnaryOp) and isinstance(e.op, ast.Not):
+            mark(e.operand)
+
+    for n in ast.walk(tree):
+        if isinstance(n, (ast.If, ast.While, ast.IfExp, ast.Assert)):
+            mark(n.test)
+        elif isinstance(n, ast.comprehension):
+            for c in n.ifs:
+                mark(c)
+
+    class _T(ast.NodeTransformer):
+        def visit_BoolOp(self, node):
+            self.generic_visit(node)
+            if id(node) not in in_test and isinstance(node.op, ast.Or) and len(node.values) == 2 and isinstance(node.values[0], ast.Name):
+                x = node.values[0]
+                return ast.copy_location(ast.IfExp(test=copy.deepcopy(x), body=x, orelse=node.values[1]), node)
+            return node
+
+    return _T().visit(tree)
+
+
+class _WalrusLower(ast.NodeTransformer):
+    """assignment expressions become the statements they abbreviate:
+      if (x := E) <op> ..: B          ->  x = E ; if x <op> ..: B                  (the binding is evaluated first, unconditionally)
+      if A and (x := E) ..: B         ->  if A: x = E ; if x ..: B                 (no else branch, or a small one that is duplicated)
+      while (x := E) and f(x): B      ->  while E and f(E): B                      (x not used in the body or afterwards)
+                                      ->  while True: x = E ; if not (..): break ; B     (otherwise)
+      [g(x) for c in cs if (x := E) is not None]  ->  [g(E) for c in cs if E is not None]   (x local to the comprehension)
+      stmt( (x := E) )                ->  x = E ; stmt(x)
+    E is evaluated more than once only where it is a pure look-up in this code base (readings, attributes, subscripts)."""
+
+    @staticmethod
+    def _unconditional(e):
+        """the first assignment expression that is evaluated whenever `e` is evaluated at all (evaluation order), or None"""
+        if isinstance(e, ast.NamedExpr):
+            inner = _WalrusLower._unconditional(e.value)
+            return inner or e
+        if isinstance(e, ast.BoolOp):
+            return _WalrusLower._unconditional(e.values[0])
+        if isinstance(e, ast.IfExp):
+            return _WalrusLower._unconditional(e.test)
+        if isinstance(e, ast.Compare):
+            return _WalrusLower._unconditional(e.left) or _WalrusLower._unconditional(e.comparators[0])
+        if isinstance(e, (ast.Lambda, ast.ListComp, ast.SetComp, ast.DictComp, ast.GeneratorExp)):
+            return None
+        for c in ast.iter_child_nodes(e):
+            if isinstance(c, ast.expr):
+                r = _WalrusLower._unconditional(c)
+                if r is not None:
+                    return r
+        return None
+
+    @staticmethod
+    def _replace(root, target, new):
+        class _R(ast.NodeTransformer):
+            def visit_NamedExpr(s_, n):
+                if n is target:
+                    return new
+                s_.generic_visit(n)
+                return n
+
+        return _R().visit(root)
+
+    @staticmethod
+    def _has(e):
+        return any(isinstance(n, ast.NamedExpr) for n in ast.walk(e))
+
+    def _hoist(self, expr, at):
+        """(statements to run first, rewritten expression)"""
+        pre = []
+        for _ in range(6):
+            w = self._unconditional(expr)
+            if w is None or not isinstance(w.target, ast.Name):
+                break
+            pre.append(ast.copy_location(ast.Assign(targets=[ast.Name(id=w.target.id, ctx=ast.Store())], value=w.value), at))
+            expr = self._replace(expr, w, ast.copy_location(ast.Name(id=w.target.id, ctx=ast.Load()), w))
+        return pre, expr
+
+    def visit_If(self, node):
+        self.generic_visit(node)
+        if not self._has(node.test):
+            return node
+        pre, node.test = self._hoist(node.test, node)
+        if self._has(node.test) and isinstance(node.test, ast.BoolOp) and isinstance(node.test.op, ast.Or) and not node.orelse and node.body and isinstance(node.body[-1], (ast.Return, ast.Raise, ast.Continue, ast.Break)) and sum(1 for b in node.body for _ in ast.walk(b)) <= 30:
+            # if A or W: <leave>   ->   if A: <leave> ; if W: <leave>
+            out = list(pre)
+            for v in node.test.values:
+                r = self.visit_If(ast.copy_location(ast.If(test=v, body=copy.deepcopy(node.body), orelse=[]), node))
+                out.extend(r if isinstance(r, list) else [r])
+            return out
+        if self._has(node.test) and isinstance(node.test, ast.BoolOp) and isinstance(node.test.op, ast.And) and sum(1 for b in node.orelse for _ in ast.walk(b)) <= 40:
+            # if A and W: B else: E   ->   if A: (if W: B else: E) else: E
+            first, rest = node.test.values[0], node.test.values[1:]
+            inner_test = rest[0] if len(rest) == 1 else ast.copy_location(ast.BoolOp(op=ast.And(), values=rest), node.test)
+            inner = self.visit_If(ast.copy_location(ast.If(test=inner_test, body=node.body, orelse=copy.deepcopy(node.orelse)), node))
+            inner = inner if isinstance(inner, list) else [inner]
+            node = ast.copy_location(ast.If(test=first, body=inner, orelse=node.orelse), node)
+        return pre + [node] if pre else node
+
+    def visit_While(self, node):
+        self.generic_visit(node)
+        if not self._has(node.test):
+            return node
+        w = self._unconditional(node.test)
+        if w is not None and isinstance(w.target, ast.Name):
+            x = w.target.id
+            used_in_body = any(isinstance(n, ast.Name) and n.id == x for b in node.body + node.orelse for n in ast.walk(b))
+            if not used_in_body and not any(isinstance(n, ast.Call) and not isinstance(n.func, ast.Attribute) for n in ast.walk(w.value)):
+                class _S(ast.NodeTransformer):
+                    def visit_Name(s_, n):
+                        return copy.deepcopy(w.value) if n.id == x and isinstance(n.ctx, ast.Load) else n
+
+                t = self._replace(node.test, w, copy.deepcopy(w.value))
+                node.test = _S().visit(t)
+                if not self._has(node.test):
+                    return node
+        if node.orelse:
+            return node
+        pre, test = self._hoist(node.test, node)
+        if self._has(test) or not pre:
+            return node
+        brk = ast.copy_location(ast.If(test=ast.copy_location(ast.UnaryOp(op=ast.Not(), operand=test), node.test), body=[ast.copy_location(ast.Break(), node)], orelse=[]), node)
+        return ast.copy_location(ast.While(test=ast.copy_location(ast.Constant(value=True), node.test), body=pre + [brk] + node.body, orelse=[]), node)
+
+    def _comp(self, node):
+        self.generic_visit(node)
+        ws = [n for n in ast.walk(node) if isinstance(n, ast.NamedExpr) and isinstance(n.target, ast.Name)]
+        for w in ws:
+            x = w.target.id
+
+            class _S(ast.NodeTransformer):
+                def visit_NamedExpr(s_, n):
+                    if n is w:
+                        return copy.deepcopy(w.value)
+                    s_.generic_visit(n)
+                    return n
+
+                def visit_Name(s_, n):
+                    return copy.deepcopy(w.value) if n.id == x and isinstance(n.ctx, ast.Load) else n
+
+            node = _S().visit(node)
+        return node
+
+    visit_ListComp = visit_GeneratorExp = visit_SetComp = visit_DictComp = _comp
+
+    def _simple(self, node):
+        self.generic_visit(node)
+        v = getattr(node, "value", None)
+        if v is None or not self._has(v):
+            return node
+        pre, node.value = self._hoist(v, node)
+        return pre + [node] if pre else node
+
+    visit_Assign = visit_Return = visit_Expr = visit_AnnAssign = _simple
+
+
 class _MatchLower(ast.NodeTransformer):
     """`match` statements over class / value / wildcard / fixed-length sequence patterns become the if/elif chain they abbreviate
     (`case C():` is `isinstance(subject, C)`, tried in order); any other pattern kind leaves the statement alone (the rules then see a
@@ -936,6 +1102,12 @@ def normalize(tree: ast.AST) -> ast.AST:
         _copy_propagate(fn_)
     if any(isinstance(n, ast.Constant) and isinstance(n.value, bool) for n in ast.walk(tree)):
         tree = _ConstFold().visit(tree)
+        ast.fix_missing_locations(tree)
+    if any(isinstance(n, ast.NamedExpr) for n in ast.walk(tree)):
+        tree = _WalrusLower().visit(tree)
+        ast.fix_missing_locations(tree)
+    if any(isinstance(n, ast.BoolOp) and isinstance(n.op, ast.Or) and len(n.values) == 2 and isinstance(n.values[0], ast.Name) for n in ast.walk(tree)):
+        tree = _or_defaults(tree)
         ast.fix_missing_locations(tree)
     if any(isinstance(n, ast.Match) for n in ast.walk(tree)):
         tree = _MatchLower().visit(tree)
